@@ -54,6 +54,7 @@ def setup(ctx):
     ctx.require("monitor", "lookalike_media_types", 20)
     ctx.require("monitor", "lookalike_tokens", 40)
     ctx.require("monitor", "large_uploads", 24)
+    ctx.require("monitor", "handlers_from_a_configuration_file", 60)
     ctx.require("monitor", "refused_by_middleware", 30)
 
 
@@ -295,7 +296,29 @@ def run_one(ctx, rng, cfg, pspec, size, mime, tok, fault=None):
         if req is None:
             ctx.undecided("request-line-refused-before-handler")
             return
-        if cfg.get("via_config"):
+        if cfg.get("via_toml"):
+            # the handler as a configuration FILE yields it; keys whose value is the documented default are left out
+            # of the file (delete off, no type list, no tokens, the 10 MiB limit)
+            import tomli_w
+            from pathlib import Path as _P
+
+            from nauyaca.server.config import ServerConfig
+
+            titan = {"enabled": True, "upload_dir": up}
+            if cfg["max_size"] != 10 * 1024 * 1024:
+                titan["max_upload_size"] = cfg["max_size"]
+            if cfg["types"]:
+                titan["allowed_mime_types"] = list(cfg["types"])
+            if cfg["tokens"]:
+                titan["auth_tokens"] = sorted(cfg["tokens"])
+            if cfg["delete"]:
+                titan["enable_delete"] = True
+            tf = os.path.join(base, "titan.toml")
+            with open(tf, "wb") as fh:
+                tomli_w.dump({"server": {"host": "127.0.0.1", "port": 1965, "document_root": base}, "titan": titan}, fh)
+            h = ServerConfig.from_toml(_P(tf)).get_upload_handler()
+            ctx.count("monitor", "handlers_from_a_configuration_file")
+        elif cfg.get("via_config"):
             from nauyaca.server.config import ServerConfig
 
             sc = ServerConfig(document_root=base, enable_titan=True, titan_upload_dir=up, titan_max_upload_size=cfg["max_size"],
@@ -650,6 +673,10 @@ def run(ctx):
         # a token list that holds the empty string (an unset placeholder): a request WITHOUT a token is still without one
         {"tokens": {"", "good"}, "max_size": LIMIT, "types": None, "delete": True},
         {"tokens": {""}, "max_size": LIMIT, "types": None, "delete": True, "via_config": True},
+        # through a configuration file, the optional keys left out wherever the documented default is meant
+        {"tokens": None, "max_size": LIMIT, "types": None, "delete": False, "via_toml": True},
+        {"tokens": {"good"}, "max_size": LIMIT, "types": ["text/plain"], "delete": True, "via_toml": True},
+        {"tokens": None, "max_size": 10 * 1024 * 1024, "types": None, "delete": False, "via_toml": True},
     ]
     k = 0
     # ---- un-faulted request space
